@@ -88,6 +88,10 @@ func c03Wheres() []c03Where {
 		{"1 in il", "num", "int_list(1, int(value)) as il"},
 		{"value in split('1,3,a', ',')", "", ""},
 		{"key = 'a002'", "", ""},
+		// point reads whose sorted key list starts with keys that are not stored
+		// (a whole probe round finds nothing, the stored keys follow)
+		{"key in ('a003', 'a000', 'a0005', 'a001', 'a0015', 'a0016', 'a002')", "", ""},
+		{"key = 'a0' or key = 'a00' or key = 'a000' | key = 'a002' | key = 'a004'", "", ""},
 		{"key > 'a000' & n > 1", "num", "int(value) as n"}, {"key between 'a001' and 'a009' & l > 1", "", "strlen(value) as l"},
 		{"key ^= 'a0' & value != '2' & u != 'A003'", "", "upper(key) as u"}, {"value != '1' & n + 1 > 1", "num", "int(value) as n"},
 		// one alias referenced three times within the filter, and three times within the select list
